@@ -40,6 +40,7 @@ SIZE_CLASSES = {
     # run of well-formed little blocks; whatever is left of such a value behind a too-short cut or an
     # overwrite parses as records
     "k0v0": (0, 0),  # its block is five zero bytes
+    "k9uv1": (9, 1, "utf8key"),  # a key of 2-, 3- and 4-byte characters: cuts fall inside a character
     "k1v40z": (1, 40, "zeros"),
     "k2v42b": (2, 42, "blocks"),
 }
@@ -52,6 +53,8 @@ def mk_kv(cls: str, pos: int, seed: int):
     blk = hashlib.sha256(f"{cls}{pos}{seed}".encode()).digest()
     # never all-zero, never starting with a byte sequence that equals its own prefix padding
     val = (blk * (vl // len(blk) + 1))[:vl]
+    if content == ["utf8key"]:
+        key = "\u03b2\u20ac\U0001d11e".encode()
     if content == ["zeros"]:
         val = bytes(vl)
     elif content == ["blocks"]:
@@ -506,6 +509,8 @@ def case_list(ctx):
         pads = sorted(set(list(range(0, 40)) + [n for k in (1, 2, 3) for n in range(4096 * k - 120, 4096 * k + 24)] + list(range(300, 12400, 257))))
     for n in pads:
         cases.append((f"pad{n}", ("k1v1",), "ukv", "light"))
+    for spec, via in ((("k9uv1",), "ukv"), (("k9uv1",), "coll:4"), (("k1v1", "k9uv1"), "coll:1000000")):
+        cases.append(("1rec", spec, via, via == "ukv"))
     for spec, via in ((("k0v0",), "ukv"), (("k0v0", "k1v1"), "ukv"), (("k1v1", "k0v0", "k1v1"), "coll:4")):
         cases.append(("1rec", spec, via, via == "ukv" and len(spec) == 1))
     # deterministic rotation by the seed (order only)
